@@ -8,8 +8,8 @@ C05 / T5: **the hand-written frame codec model equals what the Rust source text 
 parsers in `qbase/src/frame/*.rs` (restricted fragment, refusal outside it).  Each theorem below
 states, for ALL values, that a generated definition is equal to the corresponding piece of
 `Model/Frame.lean` (`sizeOf`, `maxSizeOf`, `encBytes`, `decBody`) about which the C05 / C03 theorems
-are proved.  An edit of the Rust text that changes what a codec computes breaks the matching
-theorem here on the next run.
+are proved.  An edit of the Rust text that changes what a codec computes breaks the
+matching theorem of this file on the next run.
 -/
 namespace GmQuic.Codec
 open GmQuic.Wire GmQuic.Gen GmQuic.Gen.FrameCodec
